@@ -41,8 +41,10 @@ def collect (L : List Stmt) : List Stmt :=
 
 theorem NameOK.solid {n : String} (h : NameOK n) : Solid n.toList := by
   intro x hx
-  have := idC_ne (h.all x hx)
-  exact ⟨this.2.2.2.1, this.2.2.2.2.2.1, this.2.2.2.2.2.2.1, this.2.2.2.2.1⟩
+  have hi := h.all x hx
+  refine ⟨?_, (idC_ne hi).2.2.2.2.1⟩
+  rw [idC_mem] at hi
+  exact pySpace_false_of_range (by omega) (by omega)
 
 theorem mem_intercalate {sep : List Char} : ∀ {ls : List (List Char)} {x : Char}, x ∈ sep.intercalate ls →
     x ∈ sep ∨ ∃ l ∈ ls, x ∈ l
